@@ -31,7 +31,10 @@ def cases(max_v=8, max_e=14, classes=6, settings=True):
         mk,
         st.one_of(graphs.graph_descs(max_v, max_e, classes),
                   graphs.graph_descs(max_v, max_e, classes, min_v=3, min_e=4),
-                  graphs.graph_descs(max_v, max_e, min(classes, 4), min_v=4, min_e=6)),
+                  graphs.graph_descs(max_v, max_e, min(classes, 4), min_v=4, min_e=6),
+                  # the wider vertex-class pool: a vertex class overriding the public `links` view, universes used as
+                  # plain vertices, a class caching for itself, ...
+                  graphs.graph_descs(max_v, max_e, classes, min_v=2, min_e=2, wide=True)),
         st.one_of(st.none(), st.lists(st.integers(0, max_v - 1), min_size=1, max_size=max_v)),
         st.integers(0, 7),
         st.integers(0, 2) if settings else st.just(0),
